@@ -19,3 +19,9 @@ pub fn vx_chars(s: String) -> (r: Vec<char>) { s.chars().collect() }
 pub fn vx_chars_ref(s: &String) -> (r: Vec<char>)
     ensures r@ == s@, r@.len() < 0x7fff_0000,
 { s.chars().collect() }
+
+// N17: todo!() / unimplemented!() / unreachable!() / panic!() in extracted code: reaching one is a panic, i.e. an obligation `false`
+#[verifier::external_body]
+pub fn vx_panics<T>() -> (r: T)
+    requires false,
+{ unimplemented!() }
